@@ -79,6 +79,14 @@ def gen_history(rng, nclients: int, maxlen: int, with_drops: bool = True):
             if c not in dropped:
                 ops.append(["drop", c])
                 dropped[c] = 0
+            elif nclients > 1 and rng.random() < 0.7:
+                # a disconnected client keeps working: what it wrote itself must not be served from its local copy
+                key = pick(KEYS)
+                other = pick([x for x in range(nclients) if x != c])
+                ops.append(["set", c, key, pick(CVALS), None, "a"])
+                ops.append(pick([["delete", other, key], ["set", other, key, pick(CVALS), None, "a"]]))
+                ops.append(["exists", c, key])
+                ops.append(["get", c, key])
         elif k == "reconnect":
             cand = [d for d in dropped]
             if cand:
